@@ -161,6 +161,61 @@ def exited_via_case():
     return [out]
 
 
+def exited_before_cases():
+    """gateways the user exit()ed before terminate(): (a) a proxied gateway and the gateway it runs behind, another member left: terminate does
+    not raise; (b) a gateway whose worker is stopped, nobody else in the group: terminate still waits for it and kills it"""
+    import execnet
+
+    res = []
+    for variant in ("proxied-and-master", "stopped-and-empty-group"):
+        group = execnet.Group()
+        import atexit
+
+        atexit.unregister(group._cleanup_atexit)
+        sc = {"timeout": 0.5, "gws": [{"env": "stopped" if variant.startswith("stopped") else "idle", "execmodel": "thread",
+                                       "topo": "via" if variant.startswith("proxied") else "popen", "exited_before": variant}]}
+        out = {"k": "terminate", "timeout_ms": 500, "rounds": 2, "n": 2, "elapsed_ms": 0, "group_len": -1, "leftover": -1, "err": "", "sc": sc}
+        before = procs.descendants(os.getpid())
+        pids = []
+        try:
+            if variant == "proxied-and-master":
+                m = group.makegateway("popen//id=m")
+                w = group.makegateway("popen//via=m//id=w")
+                w.remote_exec("pass").waitclose(10)
+                started = procs.descendants(os.getpid()) - before
+                w.exit()
+                m.exit()
+                group.makegateway("popen//id=p")
+                started |= procs.descendants(os.getpid()) - before
+            else:
+                gw = group.makegateway("popen//id=a")
+                pids.append(gw.remote_exec("import os\nchannel.send(os.getpid())").receive(30))
+                started = (procs.descendants(os.getpid()) | set(pids)) - before
+                os.kill(pids[0], signal.SIGSTOP)
+                gw.exit()
+            t0 = time.monotonic()
+            try:
+                group.terminate(timeout=0.5)
+            except Exception as e:  # noqa: BLE001
+                out["err"] = type(e).__name__
+            out["elapsed_ms"] = int((time.monotonic() - t0) * 1000)
+            out["group_len"] = len(group)
+            gone = procs.wait_gone(started, 1.5)
+            left = [p for p, ms in gone.items() if ms == -1]
+            out["leftover"] = len(left)
+            for p in left:
+                try:
+                    os.kill(p, signal.SIGCONT)
+                except OSError:
+                    pass
+            procs.reap(left)
+        except Exception as e:  # noqa: BLE001
+            out["err"] = "harness:" + type(e).__name__ + ":" + str(e)[:100]
+            procs.reap(pids)
+        res.append(out)
+    return res
+
+
 def mkfail_cases():
     """a makegateway call that fails leaves no process behind: at once when it is refused up front (id taken, bad spec),
     at the latest after terminate() when the failure happens once the interpreter runs (chdir / nice / env configuration)"""
@@ -203,6 +258,17 @@ def run(ctx):
     if not m.violated or m.violated == "error":
         ctx.machinery("TLC mutant TM_nokill not killed")
     ctx.note(f"TLC Termination/TM: {r.generated} states; mutant TM_nokill (terminate never kills) killed by {m.violated}")
+    # the rounds of terminate(): who is told to exit when, who is waited for through whom (gateways behind via=, gateways exit()ed before)
+    for cfg in ("TR", "TR_chain"):
+        t = tlc.run("MCTerminateRounds", cfg + ".cfg", scratch=ctx.scratch, timeout=300, parse_trace=False)
+        if not t.ok:
+            ctx.machinery(f"TLC MCTerminateRounds/{cfg}: {t.violated} {t.error[:300]}")
+    for cfg, want in (("TR_unfixed", "NeverThroughAClosedMaster"), ("TR_noprotect", "SkippedOnlyWhenTheUserExitedTheMaster"), ("TR_whileself", "Terminates")):
+        t = tlc.run("MCTerminateRounds", cfg + ".cfg", scratch=ctx.scratch, timeout=300, parse_trace=False)
+        if not t.violated or t.violated == "error":
+            ctx.machinery(f"TLC mutant MCTerminateRounds/{cfg} not killed (expected {want})")
+    ctx.note("TLC TerminateRounds: no wait through a closed forwarding gateway, only gateways whose master the user exited are skipped, pending "
+             "gateways are joined also with an empty group; the three pre-fix designs are rejected")
     lt = tlc.run("Termination", "TM_linger_term.cfg", scratch=ctx.scratch, timeout=600, parse_trace=False)
     if not lt.ok:
         ctx.machinery(f"TLC Termination/TM_linger_term: {lt.violated} {lt.error[:300]}")
@@ -237,6 +303,7 @@ def run(ctx):
     results += mkfail_cases()
     results += reuse_cases()
     results += exited_via_case()
+    results += exited_before_cases()
     herr = [x for x in results if str(x.get("err", "")).startswith("harness:")]
     if herr:
         ctx.machinery(json.dumps(herr[0])[:600])
